@@ -1837,6 +1837,17 @@ def carries(ck, prog):
 # ---------------------------------------------------------------------------
 # which function a function calls
 
+def callee_sequence(f):
+    """callee names in source order (line, then call id), without logging / assertion calls"""
+    cs = []
+    for b, i, c in f.calls():
+        cal = c.get('callee')
+        if not cal or cal.startswith('_dbus_verbose') or cal.startswith('_dbus_real_assert') or cal.startswith('__builtin'):
+            continue
+        cs.append((c.get('line') or 0, c.get('id') or 0, cal))
+    return [x[2] for x in sorted(cs)]
+
+
 def callee_profile(f):
     out = {}
     for b, i, c in f.calls():
@@ -1897,7 +1908,12 @@ def callee_identity(ck, prog):
                 fs = prog.by_name.get(nm) or []
                 return (fs[0].ret, tuple(p.get('t') for p in fs[0].params)) if fs else None
             # siblings: same return and parameter types (the call still compiles with the same arguments)
-            if g in have and h in have and g in known and h in known and sig(g) == sig(h) and sig(g) is not None \
+            # the rest of the function calls what it called, in the order it called it: the swap is the whole change
+            rs = base.get(f.file, {}).get(f.name, {}).get('Vs')
+            cs2 = callee_sequence(f)
+            only_swap = rs is not None and len(rs) == len(cs2) and \
+                all(a == b2 or (a == g and b2 == h) for a, b2 in zip(rs, cs2))
+            if only_swap and g in have and h in have and g in known and h in known and sig(g) == sig(h) and sig(g) is not None \
                     and not any(w in g or w in h for w in ('verbose', 'warn', 'log')) \
                     and not {g, h} <= ALLOCATORS:
                 line = next((c['line'] for b, i, c in f.calls(h)), f.line)
